@@ -122,7 +122,7 @@ Print Assumptions C10_max_step_hypotheses_satisfiable.
 (* the case of the defect report: max_step = (1, 5), raw step (10, 10) *)
 Example C10_max_step_example :
   map this (clip_to_max_steps qenv (mkCfg [1%Qc; 1%Qc] [None; None] [1%Qc; 1%Qc] [Some 1%Qc; Some (Q2Qc 5)]
-                                          [] [] [] [] [] [] 1 true true true) [Q2Qc 10; Q2Qc 10]) = [1%Q; 1%Q].
+                                          [] [] [] [] [] [] 1 true true true []) [Q2Qc 10; Q2Qc 10]) = [1%Q; 1%Q].
 Proof. vm_compute. reflexivity. Qed.
 Print Assumptions C10_max_step_example.
 
@@ -192,11 +192,11 @@ Definition xenv : env :=
   mkEnv Qc 0%Qc 1%Qc (Q2Qc (1 # 2)) Qcplus Qcminus Qcmult Qcdiv qabs qltb (fun a b => negb (qltb b a))
         0%Qc (Q2Qc 10) (Q2Qc 100) 0%Qc (Q2Qc (-1000)) (Q2Qc 1000)
         (fun k => Some (k ++ k)) (fun y => fold_right (fun a acc => (a * a + acc)%Qc) 0%Qc y)
-        (fun m y => Some (map (fun _ => 1%Qc) m)) (fun j _ _ _ _ => j).
+        (fun m y => Some (map (fun _ => 1%Qc) m)) (fun j _ _ _ _ => j) (fun x => x).
 (* one knob limited below only, limits = (-3, None), with max_step 1/2, two targets *)
 Definition xcfg : cfg Qc :=
   mkCfg [1%Qc] [Some (Some (Q2Qc (-3)), None)] [1%Qc] [Some (Q2Qc (1 # 2))] [0%N] [0%N]
-        [Q2Qc 2; Q2Qc 2] [Q2Qc (1 # 10); Q2Qc (1 # 10)] [1%Qc; 1%Qc] [0%N; 0%N] 3 true true true.
+        [Q2Qc 2; Q2Qc 2] [Q2Qc (1 # 10); Q2Qc (1 # 10)] [1%Qc; 1%Qc] [0%N; 0%N] 3 true true true [].
 
 Example C10_unit_laws_satisfiable : unit_laws xenv xcfg.
 Proof.
